@@ -32,15 +32,23 @@ def run_property(prop, tier, prog=None, write=True):
         # behave as before, the obligation simply cannot be discharged any more - that is an alarm, not a tool failure.
         changed = changed_unproven(ctx.prog)
         hit = [q for q in changed if e.site and (str(e.site).startswith(q) or q.startswith(str(e.site)) or str(e.site).split(".")[-1] == q.split(".")[-1])]
+        if not hit and e.site and str(e.site) in removed_since_baseline(ctx.prog):
+            # the confirmed tree had this function and the rule is about it: its removal is a change to what was confirmed
+            ctx.ob(e.rule or prop, str(e.site), "the function this rule reasons about still exists (it was part of the confirmed tree)", False,
+                   construct="anchor: %s was removed" % str(e.site).split("dateutil.")[-1], detail="%s: %s" % (e.site, e.reason),
+                   analysis="anchor lookup against the confirmed symbol table")
+            hit = [str(e.site)]
+            e = None
         if not hit and "instance floor" in str(e.reason) and changed:
             hit = sorted(changed)
         if not hit:
             raise
         f = ctx.prog.functions.get(hit[0])
-        ctx.ob(e.rule or prop, f if f is not None else hit[0],
-               "the construct this rule reasons about is still there (the function was changed and is not proven equivalent to its confirmed version)",
-               False, construct="anchor: %s" % e.reason, detail="%s: %s; changed, unproven: %s" % (e.site, e.reason, ", ".join(q.split("dateutil.")[-1] for q in hit[:3])),
-               analysis="anchor lookup on a changed function + equivalence prover verdict")
+        if e is not None:
+            ctx.ob(e.rule or prop, f if f is not None else hit[0],
+                   "the construct this rule reasons about is still there (the function was changed and is not proven equivalent to its confirmed version)",
+                   False, construct="anchor: %s" % e.reason, detail="%s: %s; changed, unproven: %s" % (e.site, e.reason, ", ".join(q.split("dateutil.")[-1] for q in hit[:3])),
+                   analysis="anchor lookup on a changed function + equivalence prover verdict")
     extra = None
     fails = []
     if tier == "thorough" and write:
@@ -62,6 +70,19 @@ def run_property(prop, tier, prog=None, write=True):
             print("ANALYSIS-ERROR property=%s self-validation: %s" % (prop, f_))
         return 2
     return rc
+
+
+def removed_since_baseline(prog):
+    """Qualified names of top-level functions / methods of the confirmed tree that the current tree no longer defines."""
+    import json
+    here = os.path.dirname(os.path.abspath(__file__))
+    try:
+        with open(os.path.join(here, "baseline_src.json")) as fh:
+            base = json.load(fh)
+    except (IOError, OSError, ValueError):
+        return set()
+    have = set(prog.functions)
+    return set(q for funcs in base.values() if isinstance(funcs, dict) for q in funcs if q not in have)
 
 
 def changed_unproven(prog):
